@@ -141,21 +141,7 @@ func checkC12(p *Prog, r *Result, tier string) {
 				if okFlow {
 					r.Report("C12.R2", FuncName(fn), construct, Discharged, "", p.Pos(in.Pos()), nil, true)
 				} else if why := callersPrevalidate(p, fn, func(g *ssa.Function) *ssa.BasicBlock {
-					// a compile site in the caller whose error is reported
-					for _, gb := range g.Blocks {
-						for _, gi := range gb.Instrs {
-							if gc, ok := gi.(*ssa.Call); ok && classifyExternal(gc.Call.StaticCallee()) == xRegexpCompile {
-								if refs := gc.Referrers(); refs != nil {
-									for _, rf := range *refs {
-										if ex, ok := rf.(*ssa.Extract); ok && ex.Index == 1 && reachesErrorReturn(ex, 0) {
-											return gb
-										}
-									}
-								}
-							}
-						}
-					}
-					return nil
+					return compileValidated(p, g, 2)
 				}); why != "" {
 					r.Report("C12.R2", FuncName(fn), construct, Discharged, "vetted: "+why, p.Pos(in.Pos()), nil, true)
 				} else {
@@ -170,18 +156,7 @@ func checkC12(p *Prog, r *Result, tier string) {
 	// every successful result of the scan evaluator is built after the arguments were validated: each call of the
 	// Search constructor in an evaluator that owns an operator guard is dominated by the guard's first comparison
 	for _, ef := range evals {
-		var head *ssa.BasicBlock
-		for _, b := range ef.DomPreorder() {
-			for _, in := range b.Instrs {
-				if bo, ok := in.(*ssa.BinOp); ok && bo.Op == token.EQL && head == nil {
-					if _, isP := bo.X.(*ssa.Parameter); isP {
-						if _, ok := constString(bo.Y); ok {
-							head = b
-						}
-					}
-				}
-			}
-		}
+		head := guardHead(ef)
 		if head == nil {
 			continue
 		}
@@ -262,23 +237,13 @@ func checkC12(p *Prog, r *Result, tier string) {
 		if !hasOpPanic {
 			continue
 		}
-		lits := stringSwitchLiterals(fn)
+		lits := ownSwitchLiterals(fn)
 		why := callersPrevalidate(p, fn, func(g *ssa.Function) *ssa.BasicBlock {
 			gl := stringSwitchLiterals(g)
-			if strings.Join(gl, " ") != strings.Join(lits, " ") || !c.own[g].Has(EErrOperator) {
+			if strings.Join(gl, " ") != strings.Join(lits, " ") || !c.Of(g).Has(EErrOperator) {
 				return nil
 			}
-			// the first comparison block of the guard
-			for _, gb := range g.Blocks {
-				for _, gi := range gb.Instrs {
-					if bo, ok := gi.(*ssa.BinOp); ok && bo.Op == token.EQL {
-						if _, ok := constString(bo.Y); ok {
-							return gb
-						}
-					}
-				}
-			}
-			return nil
+			return guardHead(g)
 		})
 		construct := "unknown operator is an error, not a panic"
 		if why != "" {
@@ -358,7 +323,7 @@ func hasSearchSig(f *ssa.Function) bool {
 
 // reachesErrorReturn: does v flow (through stores to named results / phis) into a return operand of type error?
 func reachesErrorReturn(v ssa.Value, depth int) bool {
-	if depth > 6 {
+	if depth > 6 || v == nil {
 		return false
 	}
 	refs := v.Referrers()
@@ -611,8 +576,8 @@ func panicsWithSentinel(p *Prog, pn *ssa.Panic, name string) bool {
 	return false
 }
 
-// stringSwitchLiterals: the sorted set of string constants a string parameter of fn is compared with.
-func stringSwitchLiterals(fn *ssa.Function) []string {
+// ownSwitchLiterals: the sorted set of string constants a string parameter of fn is compared with (in fn itself).
+func ownSwitchLiterals(fn *ssa.Function) []string {
 	best := map[string]bool{}
 	for _, prm := range fn.Params {
 		if b, ok := prm.Type().Underlying().(*types.Basic); !ok || b.Info()&types.IsString == 0 {
@@ -636,6 +601,120 @@ func stringSwitchLiterals(fn *ssa.Function) []string {
 		}
 	}
 	return sortedKeys(best)
+}
+
+// switchOwner: the function that holds the string switch on one of fn's string parameters: fn itself, or a
+// helper (up to two calls away) that fn hands such a parameter to. Returns the owner and, when the switch is in
+// a helper, the call instruction in fn that leads to it.
+func switchOwner(fn *ssa.Function, depth int) (*ssa.Function, ssa.Instruction) {
+	if fn == nil {
+		return nil, nil
+	}
+	if len(ownSwitchLiterals(fn)) > 0 {
+		return fn, nil
+	}
+	if depth <= 0 {
+		return nil, nil
+	}
+	for _, b := range fn.Blocks {
+		for _, in := range b.Instrs {
+			call, ok := in.(*ssa.Call)
+			if !ok {
+				continue
+			}
+			g := call.Call.StaticCallee()
+			if g == nil || g.Blocks == nil || g == fn {
+				continue
+			}
+			passes := false
+			for _, a := range call.Call.Args {
+				if pr, ok := a.(*ssa.Parameter); ok {
+					if bt, ok := pr.Type().Underlying().(*types.Basic); ok && bt.Info()&types.IsString != 0 {
+						passes = true
+					}
+				}
+			}
+			if !passes {
+				continue
+			}
+			if owner, _ := switchOwner(g, depth-1); owner != nil {
+				return owner, in
+			}
+		}
+	}
+	return nil, nil
+}
+
+// stringSwitchLiterals: literals of the switch owned by fn or by a helper it delegates to.
+func stringSwitchLiterals(fn *ssa.Function) []string {
+	owner, _ := switchOwner(fn, 2)
+	if owner == nil {
+		return nil
+	}
+	return ownSwitchLiterals(owner)
+}
+
+// guardHead: the block of fn where the string switch starts: its first comparison, or the call of the helper that holds it.
+func guardHead(fn *ssa.Function) *ssa.BasicBlock {
+	owner, via := switchOwner(fn, 2)
+	if owner == nil {
+		return nil
+	}
+	if via != nil {
+		return via.Block()
+	}
+	for _, b := range fn.DomPreorder() {
+		for _, in := range b.Instrs {
+			if bo, ok := in.(*ssa.BinOp); ok && bo.Op == token.EQL {
+				if _, isP := bo.X.(*ssa.Parameter); isP {
+					if _, ok := constString(bo.Y); ok {
+						return b
+					}
+				}
+			}
+		}
+	}
+	return nil
+}
+
+// compileValidated: the block of g in which a search pattern is compiled and the error reported: a regexp.Compile
+// in g whose error reaches g's error result / the Search's error, or a call of a helper that does so and whose own
+// error result is reported by g.
+func compileValidated(p *Prog, g *ssa.Function, depth int) *ssa.BasicBlock {
+	for _, gb := range g.Blocks {
+		for _, gi := range gb.Instrs {
+			gc, ok := gi.(*ssa.Call)
+			if !ok {
+				continue
+			}
+			callee := gc.Call.StaticCallee()
+			if classifyExternal(callee) == xRegexpCompile {
+				if refs := gc.Referrers(); refs != nil {
+					for _, rf := range *refs {
+						if ex, ok := rf.(*ssa.Extract); ok && ex.Index == 1 && reachesErrorReturn(ex, 0) {
+							return gb
+						}
+					}
+				}
+			} else if depth > 0 && callee != nil && callee.Blocks != nil && inSod(p, callee) && callee != g {
+				if compileValidated(p, callee, depth-1) != nil {
+					// the helper's error must be reported by g
+					res := callee.Signature.Results()
+					if res.Len() == 1 && isErrorType(res.At(0).Type()) && reachesErrorReturn(gc, 0) {
+						return gb
+					}
+					if refs := gc.Referrers(); refs != nil {
+						for _, rf := range *refs {
+							if ex, ok := rf.(*ssa.Extract); ok && ex.Index < res.Len() && isErrorType(res.At(ex.Index).Type()) && reachesErrorReturn(ex, 0) {
+								return gb
+							}
+						}
+					}
+				}
+			}
+		}
+	}
+	return nil
 }
 
 // callersPrevalidate: every sod (non-test) caller g of fn has a validation block (given by find) from which the call
